@@ -73,6 +73,11 @@ func generate(prop, tier, lane string, seed uint64, worker, run int) *Scenario {
 	runSeed := Mix(seed, hashStr(prop+"/"+lane), uint64(worker), uint64(run))
 	r := NewRng(runSeed)
 	scn := &Scenario{Prop: prop, Tier: tier, Lane: lane, Seed: seed, Worker: worker, Run: run, RunSeed: runSeed}
+	if lane == "racesim" || lane == "race" {
+		// the race-instrumented binary is an order of magnitude slower: the
+		// thorough tier gives these lanes MORE runs, not bigger ones
+		tier = "quick"
+	}
 	switch prop {
 	case "C11":
 		scn.C11 = genC11(r, tier)
@@ -202,7 +207,12 @@ func cmdRun(args []string) {
 			writeJSON(*cur, &ReplayFile{Tree: treeSHA, Scenario: *scn,
 				Violation: &Violation{Prop: *prop, Oracle: "data-race", Where: "race-detector", Detail: "the Go race detector reported a data race while this workload ran"}})
 		}
+		tRun := time.Now()
 		res := execute(scn)
+		if d := time.Since(tRun); d > 20*time.Second {
+			// diagnostics only (never a decision): which scenarios are expensive
+			fmt.Fprintf(os.Stderr, "slow run: %s lane=%s worker=%d run=%d took %.0fs steps=%d skipped=%q\n", *prop, *lane, *worker, run, d.Seconds(), res.Steps, res.Skipped)
+		}
 		stats.add(res)
 		if *evlog {
 			stats.EvHashes = append(stats.EvHashes, fmt.Sprintf("%d:%016x:%d", run, res.EvHash, res.Steps))
